@@ -83,6 +83,13 @@ def run_case(case):
             os.chdir(base)
             s = target.make_solver(sv, problem, **kw)
             D = str(s.checkpoint_dir) if f > 0 else os.path.join(base, "checkpoints")
+        elif not has_cfg and case["case_id"] % 2 == 0:
+            # a configuration-less problem passed together with an explicit solver configuration object whose
+            # nested problem field describes ANOTHER (reconstructible) problem: still not reconstructible
+            from mdpax.problems.forest import ForestConfig
+
+            cfg = target.call("build solver config", cls.Config, problem=ForestConfig(S=3), checkpoint_dir=D, verbose=0, **kw)
+            s = target.call(f"construct {sv} from problem + config object", cls, problem, config=cfg)
         else:
             s = target.make_solver(sv, problem, checkpoint_dir=D, **kw)
         log = ckpt.wrap_save(s, sv, [])
